@@ -21,11 +21,16 @@ pub struct ProcEnv {
     pub today: Date,
     pub knobs: Knobs,
     pub fs_faults: FsFaults,
+    /// Some(h): the process learns "today" the way a deployed one does - from the (simulated)
+    /// system clock and the TZ environment variable, h hours west of UTC (negative = east) - instead
+    /// of through the library's test override. The simulated instant is 01:00..23:00 LOCAL time on
+    /// `today`, so the UTC date is often the day after (west) or before (east).
+    pub clock_tz_hours_west: Option<i8>,
 }
 
 impl ProcEnv {
     pub fn new(hash_seed: u64, today: Date) -> ProcEnv {
-        ProcEnv { hash_seed, today, knobs: Knobs::default(), fs_faults: FsFaults::default() }
+        ProcEnv { hash_seed, today, knobs: Knobs::default(), fs_faults: FsFaults::default(), clock_tz_hours_west: None }
     }
 }
 
@@ -78,19 +83,31 @@ where
         w.entropy_calls = 0;
         w.clock_reads = 0;
         // Same simulated day, but every simulated process sees its own time of day and pid.
-        w.now_unix = unix_noon(env.today) + (env.hash_seed % 21_600) as i64 - 10_800;
+        w.now_unix = match env.clock_tz_hours_west {
+            None => unix_noon(env.today) + (env.hash_seed % 21_600) as i64 - 10_800,
+            // local noon +- 11 h, expressed in UTC seconds
+            Some(h) => unix_noon(env.today) + h as i64 * 3600 + (env.hash_seed % 79_200) as i64 - 39_600,
+        };
         w.pid = 10_000 + (env.hash_seed % 50_000) as i32;
         w.unmodelled.clear();
         w.fs.begin_process(env.knobs.clone(), env.fs_faults.clone());
     });
     let today = env.today;
+    let use_clock = env.clock_tz_hours_west.is_some();
+    if let Some(h) = env.clock_tz_hours_west {
+        // POSIX TZ: "SIM5" = 5 hours west of UTC, "SIM-9" = 9 hours east. No simulated process is
+        // running while the variable changes (they run one at a time, this thread starts them).
+        std::env::set_var("TZ", format!("SIM{}", h));
+    }
     let (done_tx, done_rx) = std::sync::mpsc::channel::<()>();
     let handle = std::thread::Builder::new()
         .name("simproc".into())
         .stack_size(16 << 20)
         .spawn(move || {
             set_in_sim(true);
-            acb::util::date::set_todays_date_for_test(today);
+            if !use_clock {
+                acb::util::date::set_todays_date_for_test(today);
+            }
             let r = catch_unwind(AssertUnwindSafe(f));
             let _ = std::io::stdout().flush();
             let _ = std::io::stderr().flush();
